@@ -190,6 +190,7 @@ type VC struct {
 	inlR          string
 	inlMem        *Mem
 	inlSite       *ssa.BasicBlock // block of the outermost call being executed in place
+	inlGuard      string          // extra path condition for the next in-place execution (sortSearch)
 }
 
 type debugBinding struct {
